@@ -36,8 +36,8 @@ def c01(D, h):
     for g in D.groups:
         if g[0] == 'og':
             want_tops[g[1]] = sorted(refs_of([g]))
-    if sorted(tops) != sorted(want_tops):
-        bad.append('top-level ids %s, expected %s' % (sorted(tops), sorted(want_tops)))
+    if set(tops) != set(want_tops) or len(tops) != len(want_tops):
+        bad.append('top-level ids %s, expected %s' % (sorted(tops, key=str), sorted(want_tops, key=str)))
     seen = collections.Counter()
     for tid, top in tops.items():
         m = sorted(x.unique_id for x in top.get_all_descendant_genes())
@@ -105,8 +105,18 @@ def c02(D, h):
     return wf_problems(h)
 
 # ---------------------------------------------------------------------------------------- C03
-def c03(D, h):
+def skipped_levels_single_child(h):
+    """C03 literally: every level the file skips between a HOG and a member is materialised as a single-child HOG
+    (pyham marks the HOGs it creates for skipped levels with `_missing_in_xml`)"""
     bad = []
+    for top in h.get_list_top_level_hogs():
+        for n in all_nodes(top):
+            if isinstance(n, ag.HOG) and hasattr(n, '_missing_in_xml') and len(n.children) != 1:
+                bad.append('the HOG materialised for the skipped level %s has %d children' % (nodekey(n), len(n.children)))
+    return bad
+
+def c03(D, h):
+    bad = skipped_levels_single_child(h)
     tops = h.get_dict_top_level_hogs()
     for tid, root in truth_roots(D):
         if tid not in tops:
